@@ -20,12 +20,14 @@ From SV Require Import proofs.NglobCodeTie.
 From SV Require Import model.NglobBatch.
 From SV Require Import model.NglobWide.
 From SV Require Import model.GlobTree.
+From SV Require Import model.GlobTreeRec.
 From SV Require gen.GenNglobBatch.
 From SV Require Import proofs.NglobBatchProofs.
 From SV Require Import proofs.NglobBatchTie.
 From SV Require Import proofs.NglobCands.
 From SV Require Import proofs.NglobCands2.
 From SV Require Import proofs.NglobCands3.
+From SV Require Import proofs.NglobCands4.
 From SV Require Import proofs.NglobNamedWide.
 From SV Require Import proofs.NglobEndToEnd.
 Import ListNotations.
@@ -544,6 +546,15 @@ Theorem C17_glob_candidates_exact_partial :
     (In q (glob_paths t gp) <-> In q (all_paths t) /\ accepts (rcat ps) q = true).
 Proof. exact glob_candidates_exact_partial. Qed.
 
+(* G2S = G2 with a literal prefix made of legal names (`dir/sub/**`, `**`): every candidate that
+   glob() keeps exists in the tree.  The unchecked "prefix/" that the standard library yields when the
+   prefix is missing or a regular file is dropped by the filter of glob() (D5c, fixed). *)
+Theorem C17_glob_candidates_exist_recursive_partial :
+  forall (t : list entry) (p : str) (subs : subs_t) (gp q : str),
+    wf_tree t = true -> g2s p = true -> conv_glob p subs = COk gp ->
+    In q (glob_paths t gp) -> In q (all_paths t).
+Proof. exact glob_candidates_exist_rec_partial. Qed.
+
 (* Completeness is FALSE on F1 (classes): `a[!/]b` accepts the existing file axb (and both
    reference semantics agree) but glob.glob splits the translated pattern at the separator inside the
    brackets and returns nothing; and `[a<newline>]` is literal text for RE_ANY_WILD but a class for
@@ -570,16 +581,17 @@ Example C17_example_candidates :
 Proof. vm_compute. repeat split. Qed.
 
 (* ========================================================================================== *)
-(* (6) End to end on G1S: no hypothesis about the candidate list is left.                      *)
+(* (6) End to end on G1S and G2S: no hypothesis about the candidate list is left.              *)
 (* ========================================================================================== *)
 
-(* (1') with its two candidate hypotheses discharged by (5): for every pattern of G1S, any two
+(* (1') with its two candidate hypotheses discharged by (5): for every pattern of G1S or G2S
+   ([e2e_fragment p subs] := g1s p subs = true \/ g2s p = true), any two
    well-formed finite trees t, t' and any added / deleted lists that reflect the difference for the
    accepted paths, updating what glob() recorded on t gives the dictionary glob() records on t',
    and will_change answers None exactly when the two scans agree. *)
 Theorem C17_glob_update_equals_rescan_partial :
   forall (t t' : list entry) (p : str) (subs : subs_t) (g : ng) (gp : str) (added deleted : list str),
-    wf_tree t = true -> wf_tree t' = true -> g1s p subs = true ->
+    wf_tree t = true -> wf_tree t' = true -> e2e_fragment p subs ->
     ng_make p subs = COk g -> conv_glob p subs = COk gp ->
     (forall q, In q added -> In q (all_paths t')) ->
     (forall q, In q deleted -> ~ In q (all_paths t')) ->
@@ -590,19 +602,19 @@ Theorem C17_glob_update_equals_rescan_partial :
     results_eqb key_eqb upd (scan key_eqb (ng_mv g) (glob_paths t' gp)) = true
     /\ (will_change key_eqb (ng_mv g) old deleted added = None
         <-> results_eqb key_eqb old (scan key_eqb (ng_mv g) (glob_paths t' gp)) = true).
-Proof. exact glob_update_equals_rescan_g1s. Qed.
+Proof. exact glob_update_equals_rescan_fragment. Qed.
 
 (* The whole watch path: glob() on tree t (what register_nglob persisted), ANY sequence of queue
    items folded by record_change whose meaning for accepted paths leads from t to t' (trace_ok,
    including under_complete), pruning, commit by process_nglob_changes: the two sets do not overlap,
    the row is rewritten exactly when glob() on t' differs from the old record, and it then holds a
    dictionary equal to glob() on t'.  Assumptions left: accepted_relevant, under_complete (inside
-   trace_ok), pruned_existed (see (4)); the pattern lies in G1S. *)
+   trace_ok), pruned_existed (see (4)); the pattern lies in G1S or G2S. *)
 Theorem C17_watch_commit_equals_glob_partial :
   forall (t t' : list entry) (p : str) (subs : subs_t) (g : ng) (gp : str)
          (rel : bool -> str -> bool) (under : bool -> str -> list str)
          (tr : list (item * list str)) (unchanged : list str),
-    wf_tree t = true -> wf_tree t' = true -> g1s p subs = true ->
+    wf_tree t = true -> wf_tree t' = true -> e2e_fragment p subs ->
     ng_make p subs = COk g -> conv_glob p subs = COk gp ->
     (forall db q, ng_mv g q <> None -> rel db q = true) ->
     trace_ok key (ng_mv g) under (all_paths t) tr ->
@@ -616,10 +628,10 @@ Theorem C17_watch_commit_equals_glob_partial :
          process_reg key_eqb (ws_deleted st) (ws_updated st) (ng_mv g, old) = ((ng_mv g, new), changed) ->
          (changed = false <-> results_eqb key_eqb old fresh = true)
          /\ results_eqb key_eqb new fresh = true.
-Proof. exact watch_commit_equals_glob_g1s. Qed.
+Proof. exact watch_commit_equals_glob_fragment. Qed.
 
 Example C17_example_end_to_end :
-  wf_tree e2e_t = true /\ wf_tree e2e_t' = true /\ g1s ex_pat1 [] = true
+  wf_tree e2e_t = true /\ wf_tree e2e_t' = true /\ g1s ex_pat1 [] = true /\ g2s ex_pat4 = true
   /\ (exists g, ng_make ex_pat1 [] = COk g
         /\ files (scan key_eqb (ng_mv g) (glob_paths e2e_t [115;114;99;47;42;46;99])) = [[115;114;99;47;97;46;99]]
         /\ will_change key_eqb (ng_mv g) (scan key_eqb (ng_mv g) (glob_paths e2e_t [115;114;99;47;42;46;99])) [] e2e_added <> None)
